@@ -297,6 +297,10 @@ def main(cli_argv=None, return_args=False):
                     args.output_filename
                 )
             )
+        elif len(args.input_params) != len(args.output_params):
+            _parser.error(
+                "--input-param and --output-param must be given the same number of times"
+            )
         sync_properties(**args_dict)
     elif command == "gen":
         if path.isfile(args.output_filename):
